@@ -453,6 +453,19 @@ def run_scenario(flowir: str, script: Dict[str, Any], location: str, perturb_see
                     on_error=lambda e: None)
             except Exception:
                 pass
+    # Monitor: an exception that terminates the state observable of an engine / component silences it for good (its
+    # owner never hears about later exits).  Completion is normal, termination by an exception is recorded.
+    for c in comps:
+        try:
+            ref = c.specification.reference
+            c.engine.stateUpdates.subscribe(
+                on_next=lambda e: None,
+                on_error=lambda e, ref=ref: REC.record("observable.error", ref, which="engine.stateUpdates", err=repr(e)[:300]))
+            c.stateUpdates.subscribe(
+                on_next=lambda e: None,
+                on_error=lambda e, ref=ref: REC.record("observable.error", ref, which="component.stateUpdates", err=repr(e)[:300]))
+        except Exception:
+            pass
     CTX.controller = ctrl
     CTX.rng = random.Random(perturb_seed)
     CTX.jitter_p = jitter_p
@@ -655,7 +668,51 @@ TARGET_FUNCTIONS = (
 )
 
 
-def install_targeted_yield(p: float = 0.3, max_sleep: float = 0.004, seed: int = 0):
+CONTROLLER_TARGETS = (
+    # the controller's callbacks and the component-state transitions they drive: pauses BETWEEN their critical
+    # sections let notifications about one component arrive while another one is being stopped / restarted
+    ("control", "Controller.finishedCheck", ()),
+    ("control", "Controller.postMortemCheck", ()),
+    ("control", "Controller._restartComponent", ()),
+    ("control", "Controller._stopComponents", ()),
+    ("control", "Controller.kill_all_components", ()),
+    ("control", "Controller._fake_finish_with_state", ()),
+    ("control", "Controller.finalize_submit_components", ("safe_observe", "check_for_push_notification")),
+    ("control", "Controller.observe_engine_change", ()),
+    ("control", "Controller._handle_condition_component_finished", ()),
+    ("control", "TransitionComponentToFinalState", ()),
+    ("workflow", "ComponentState.finish", ("Setter", "stop_engine")),
+    ("workflow", "ComponentState.restart", ()),
+    ("engine", "Engine.restart", ()),
+    ("engine", "Engine.kill", ()),
+    ("engine", "RepeatingEngine.kill", ()),
+    ("engine", "RepeatingEngine.notify_all_producers_finished", ()),
+)
+
+
+def _original_function(fn, name, module_file):
+    """The repository's function behind a harness wrapper (wrappers keep it in a closure cell)."""
+    seen = set()
+    todo = [fn]
+    while todo:
+        f = todo.pop()
+        f = getattr(f, "__func__", f)
+        if id(f) in seen or not hasattr(f, "__code__"):
+            continue
+        seen.add(id(f))
+        if f.__code__.co_name == name and f.__code__.co_filename.endswith(module_file):
+            return f
+        for cell in (f.__closure__ or ()):
+            try:
+                v = cell.cell_contents
+            except ValueError:
+                continue
+            if callable(v):
+                todo.append(v)
+    return None
+
+
+def install_targeted_yield(p: float = 0.3, max_sleep: float = 0.004, seed: int = 0, which: str = "emission"):
     """LINE events restricted to a handful of code objects (sys.monitoring local events): with probability p the
     thread sleeps up to max_sleep at a line boundary inside the snapshot hand-off functions.  Cheap enough for the
     quick tier; it widens windows that exist anyway (a thread can be pre-empted at any line boundary)."""
@@ -700,7 +757,11 @@ def install_targeted_yield(p: float = 0.3, max_sleep: float = 0.004, seed: int =
             time.sleep(d)
 
     mon.register_callback(tool, mon.events.LINE, on_line)
-    for mod, qual, inner in TARGET_FUNCTIONS:
+    targets = {"emission": TARGET_FUNCTIONS, "controller": CONTROLLER_TARGETS,
+               "both": TARGET_FUNCTIONS + CONTROLLER_TARGETS}[which]
+    counter["which"] = which
+    done_codes = set()
+    for mod, qual, inner in targets:
         obj = mods[mod]
         try:
             if qual in ORIGINALS:
@@ -708,10 +769,14 @@ def install_targeted_yield(p: float = 0.3, max_sleep: float = 0.004, seed: int =
             else:
                 for part in qual.split("."):
                     obj = getattr(obj, part)
-                fn = obj
+                fn = _original_function(obj, qual.split(".")[-1], mod + ".py")
             code = fn.__code__
         except Exception:
+            counter["unresolved"] = counter.get("unresolved", 0) + 1
             continue
+        if code in done_codes:
+            continue
+        done_codes.add(code)
         codes = [code] + nested(code, set(inner))
         for c in codes:
             mon.set_local_events(tool, c, mon.events.LINE)
